@@ -333,6 +333,15 @@ def parents(n):
         p = getattr(p, '_parent', None)
 
 
+def enclosing_handler(st):
+    a = getattr(st, '_parent', None)
+    while a is not None:
+        if isinstance(a, ast.ExceptHandler):
+            return a
+        a = getattr(a, '_parent', None)
+    return None
+
+
 def r4_mibcopy(chk):
     model = chk.model
     mod = model.mod(MIBCOPY)
@@ -360,6 +369,21 @@ def r4_mibcopy(chk):
         ok = ok and len(rev) == 1 and norm(rev[0].value) == "datetime.strptime(%s[%s].revision, '%%Y-%%m-%%d %%H:%%M')" % (P, nv)
     chk.ob('C20.R4', 'getMibRevision/selects-the-file-just-read', ok, where(mod, fn),
            'name and revision must come from the compiled status whose path is the file read')
+    # every file found by os.walk() is paired with the directory it was found in
+    walks = [c for c in ast.walk(mod.tree) if isinstance(c, (ast.ListComp, ast.GeneratorExp)) and any(
+        isinstance(g.iter, ast.Call) and dotted_name(g.iter.func) == 'os.walk' for g in c.generators)]
+    okw = False
+    detail = 'no comprehension over os.walk() found'
+    if walks:
+        c = walks[0]
+        g = [g for g in c.generators if isinstance(g.iter, ast.Call) and dotted_name(g.iter.func) == 'os.walk'][0]
+        dirvar = g.target.elts[0].id if isinstance(g.target, ast.Tuple) and isinstance(g.target.elts[0], ast.Name) else None
+        first = c.elt.elts[0] if isinstance(c.elt, ast.Tuple) and c.elt.elts else None
+        okw = dirvar is not None and dirvar != '_' and first is not None and any(
+            isinstance(x, ast.Name) and x.id == dirvar for x in ast.walk(first))
+        detail = 'files are paired with `%s`, the walk step\'s directory is `%s`' % (
+            norm(first)[:50] if first is not None else None, dirvar)
+    chk.ob('C20.R4', 'source-walk/file-paired-with-its-own-directory', okw, where(mod, walks[0]) if walks else MIBCOPY, detail)
     # sources are asked in the order they were added and the first hit wins: the directory of the file under
     # inspection must come first, or a same-named file in a repository shadows it
     adds = [c for c in walk_no_nested(fn) if isinstance(c, ast.Call) and isinstance(c.func, ast.Attribute) and
@@ -415,6 +439,18 @@ def r4_mibcopy(chk):
         remembered = any(isinstance(p, ast.If) and norm(p.test) == 'mibName in mibsRevisions' and
                          any(common._within(st, s) for s in p.orelse) for p in parents(st))
         chk.ob('C20.R4', 'loop/remembered-revision-first', remembered, where(mod, st), '')
+    # an absent destination copy is older than any source - also than a source without REVISION, whose revision
+    # getMibRevision reports as the epoch: the two fall-backs must differ and the absent one must be the minimum
+    fb_rev = [x.value for x in walk_no_nested(fn) if isinstance(x, ast.Assign) and isinstance(x.targets[0], ast.Name) and
+              enclosing_handler(x) is not None]
+    fb_dst = [x for x in ast.walk(mod.tree) if isinstance(x, ast.Assign) and isinstance(x.targets[0], ast.Name) and
+              x.targets[0].id == 'dstMibRevision' and enclosing_handler(x) is not None]
+    okfb = len(fb_dst) == 1 and norm(fb_dst[0].value) in ('datetime.min', 'datetime.datetime.min') and \
+        all(norm(v) != norm(fb_dst[0].value) for v in fb_rev)
+    chk.ob('C20.R4', 'loop/absent-destination-older-than-any-source', okfb,
+           where(mod, fb_dst[0]) if fb_dst else MIBCOPY,
+           'the revision assumed for a module that is not in the destination yet must be datetime.min - below the epoch '
+           'getMibRevision reports for a module without REVISION - found %s' % [norm(x.value) for x in fb_dst])
     skip = [n for n in ast.walk(mod.tree) if isinstance(n, ast.If) and 'dstMibRevision' in norm(n.test) and
             'srcMibRevision' in norm(n.test)]
     ok = len(skip) == 1 and norm(skip[0].test) in ('dstMibRevision >= srcMibRevision', 'srcMibRevision <= dstMibRevision') \
